@@ -487,7 +487,14 @@ impl Prop for C17 {
     fn post_tags(&self, e: &Evaluated) -> Vec<String> {
         let mut t = vec![];
         if let Some((h, _)) = e.request.as_call() {
-            t.push(format!("{h}={}", if e.answer.starts_with("(T") { "some" } else if e.answer.len() > 12 { "text" } else { &e.answer }));
+            let class = if e.answer.starts_with("(T") {
+                "some"
+            } else if matches!(e.answer.as_str(), "0" | "1" | "none" | "err" | "panic" | "ok") {
+                e.answer.as_str()
+            } else {
+                "text"
+            };
+            t.push(format!("{h}={class}"));
             if h == "ty-valid" && e.answer == "1" {
                 t.push("nt:valid-accepted".into());
             }
@@ -591,17 +598,6 @@ fn c17_oracle(evaluated: &[Evaluated]) -> (Vec<OracleFailure>, serde_json::Value
             }
         }
     }
-    // results outside the enumerated set (sparse deep stream): check the two-sided laws directly
-    for (i, j, d) in &outside {
-        let c = d.build();
-        if !(verif_types::is_scalar_only_subtype(&types[*i], &c) && verif_types::is_scalar_only_subtype(&types[*j], &c)) {
-            fail("intersect-not-subtype-of-both", d.text(), vec![req2("ty-intersect", &descs[*i], &descs[*j])]);
-        }
-        if types[*j].intersect(&types[*i]) != Some(c) {
-            fail("intersect-not-commutative", d.text(), vec![req2("ty-intersect", &descs[*i], &descs[*j]), req2("ty-intersect", &descs[*j], &descs[*i])]);
-        }
-    }
-
     let mut pairs_checked = 0u64;
     let mut triples_checked = 0u64;
     for i in 0..n {
@@ -649,6 +645,17 @@ fn c17_oracle(evaluated: &[Evaluated]) -> (Vec<OracleFailure>, serde_json::Value
             }
         }
     }
+    // results outside the enumerated set (sparse deep stream): check the two-sided laws directly
+    for (i, j, d) in &outside {
+        let c = d.build();
+        if !(verif_types::is_scalar_only_subtype(&types[*i], &c) && verif_types::is_scalar_only_subtype(&types[*j], &c)) {
+            fail("intersect-not-subtype-of-both", d.text(), vec![req2("ty-intersect", &descs[*i], &descs[*j])]);
+        }
+        if types[*j].intersect(&types[*i]) != Some(c) {
+            fail("intersect-not-commutative", d.text(), vec![req2("ty-intersect", &descs[*i], &descs[*j]), req2("ty-intersect", &descs[*j], &descs[*i])]);
+        }
+    }
+
     'triples: for i in 0..n {
         for j in 0..n {
             // only same-family triples can exercise the ternary laws non-trivially, but check all
